@@ -130,7 +130,7 @@ KINDS = ["Int", "Counter32", "Gauge32", "TimeTicks", "UInteger32", "Counter64", 
 def gen_value(rng, kinds=None, form_p=0.2):
     """-> dict(kind, tlv, py, cls). py is the Python value the client must deliver."""
     kind = rng.choice(kinds or KINDS)
-    form = rng.choice([1, 2, 3, 4]) if rng.random() < form_p else None
+    form = rng.choice([1, 2, 3, 4, 4, 5, 8, 9, 10]) if rng.random() < form_p else None
     cls = kind
     if kind == "Int":
         v = gen_int(rng)
